@@ -286,7 +286,7 @@ class FuncRenderer:
         t = re.sub(r'\b(const|volatile|register|restrict|static)\b', ' ', t)
         t = re.sub(r'\bsizetype\b', 'unsigned long', re.sub(r'\bssizetype\b', 'long', t))
         t = t.replace('&', '*')
-        if '(*)' in t or re.search(r'\(\*\w*\)', t):
+        if '(*)' in t or re.search(r'\(\s*\*\s*(?:<\w+>|\w*)\s*\)', t):
             return 'void *'
         # anonymous unscoped enum (no fixed underlying type can be named in the dump): g++ gives it unsigned int
         t = re.sub(r'(?:enum )?\._anon_\d+D_\d+', 'unsigned int', t)
@@ -322,6 +322,17 @@ class FuncRenderer:
         t = re.sub(r'\s+', ' ', t).strip()
         t = re.sub(r'\s*\*\s*', ' *', t)
         return t
+
+    def icall(self, tmp, args):
+        """call through a function pointer loaded from a struct member: ICALL_<member>(pointer, args...) -- a stub the
+        contract file supplies, like the VCALL_ stubs of virtual calls"""
+        d = self.tmpdefs.get(tmp, '')
+        m = re.search(r'(?:->|\.)([A-Za-z_]\w*?)(?:D_\d+)?$', d)
+        if not m:
+            raise G2CError('indirect call through %s (= %r): cannot name the pointer in %s' % (tmp, d, self.f.pretty))
+        name = 'ICALL_' + m.group(1)
+        self.R.icalls.add(name)
+        return '%s (%s%s%s)' % (name, tmp, ', ' if args.strip() else '', args)
 
     def is_ptr_type(self, rawtype):
         return '*' in rawtype or '&' in rawtype
@@ -473,7 +484,11 @@ class FuncRenderer:
                 return s
             e = match_paren(s, mm.end() - 1)
             ty = s[mm.end():e]
-            s = s[:mm.start()] + '(' + self.ctype(ty) + ')' + s[e + 1:].lstrip()
+            rest = s[e + 1:].lstrip()
+            if re.match(r'^-?\d', rest):
+                for name_, uid_ in UIDTOK.findall(ty):
+                    self.R.arith_scalars.add(uid_)
+            s = s[:mm.start()] + '(' + self.ctype(ty) + ')' + rest
 
     def casts(self, s):
         """plain C-style casts '(type) x' whose type mentions a uid token"""
@@ -535,7 +550,7 @@ class FuncRenderer:
         s = s.replace('<retval>', '__retval')
         s = s.replace('(sizetype)', '(unsigned long)').replace('(ssizetype)', '(long)')
         s = re.sub(r'&(@STR\d+@)', r'((char *)\1)', s)
-        if re.search(r'\b__(ABS|MIN|MAX|VIEW|BIT_FIELD_REF|BIT_INSERT|REALPART|IMAGPART|ROTATE\w*|UNLT|UNLE|UNGT|UNGE|UNEQ|LTGT|UNORDERED|ORDERED)\b', s) or ' r>> ' in s or ' r<< ' in s:
+        if re.search(r'\b__(MIN|MAX|VIEW|BIT_FIELD_REF|BIT_INSERT|REALPART|IMAGPART|ROTATE\w*|UNLT|UNLE|UNGT|UNGE|UNEQ|LTGT|UNORDERED|ORDERED)\b', s) or ' r>> ' in s or ' r<< ' in s:
             raise G2CError('unsupported GIMPLE operator in %r (%s)' % (s, self.f.pretty))
         return s
 
@@ -790,6 +805,13 @@ def method_render(self):
                     cq = class_of_method(self.U.dem.get(mh.group(2), ''))
                     if cq:
                         self.R.scope_hints.setdefault(mu.group(2), set()).add(cq)
+                else:
+                    # the same for a typedef-named scalar (value_type, size_type, ...)
+                    ms_ = re.match(r'^(?:const )?([A-Za-z_]\w*?)D_(\d+)\b', (vt or '').strip())
+                    if ms_:
+                        cq = class_of_method(self.U.dem.get(mh.group(2), ''))
+                        if cq:
+                            self.R.scalar_scope_hints.setdefault(ms_.group(2), set()).add(cq)
             mh = re.search(r'\b(_Z\w+) \((.*)\);$', s)
             if mh:
                 cq = class_of_method(self.U.dem.get(mh.group(1), ''))
@@ -835,6 +857,17 @@ def method_render(self):
                     ot = self.vtype(m2.group(2))
                     if tt and ot and re.search(r'\b(double|float)D_', ot) and tt in F2I_TYPES:
                         lines.append('  __CPROVER_assert(G2C_F2I_OK_%s(%s), "g2c-safety: float-to-integer conversion within the range of %s");' % (F2I_TYPES[tt], self.expr(m2.group(2)), tt))
+                m2 = re.match(r'^__ABS (\S+)$', rhs)
+                if m2:
+                    # ABS_EXPR: for a signed integer, |minimum| overflows (undefined); for a double it clears the sign
+                    x = self.expr(m2.group(1)); tx = self.vtype(m2.group(1)) or ''
+                    if 'double' in tx or 'float' in tx:
+                        lines.append('  %s = (%s < 0 ? -%s : %s);' % (self.expr(lhs), x, x, x))
+                    else:
+                        lines.append('  __CPROVER_assert(%s != (-(%s)0x7fffffffffffffffl - 1) || sizeof(%s) < 8, "g2c-safety: ABS_EXPR of the most negative value overflows");' % (x, 'long', x))
+                        lines.append('  __CPROVER_assert(%s != (-0x7fffffff - 1) || sizeof(%s) != 4, "g2c-safety: ABS_EXPR of the most negative value overflows");' % (x, x))
+                        lines.append('  %s = (%s < 0 ? -%s : %s);' % (self.expr(lhs), x, x, x))
+                    continue
                 m2 = re.match(r'^~(\S+)$', rhs)
                 if m2:
                     lines.append('  %s = G2C_NOT(%s);' % (self.expr(lhs), self.expr(m2.group(1)))); continue
@@ -844,7 +877,16 @@ def method_render(self):
                 if re.search(r'/\[|%\[', rhs):
                     raise G2CError('unsupported division flavour %r' % rhs)
                 iscall = bool(re.match(r'^[A-Za-z_]\w* \(.*\)$', rhs)) and not rhs.startswith('(')
+                mi = re.match(r'^(_\d+) \((.*)\)$', rhs)
+                if mi and mi.group(1) in self.vars:
+                    rhs = self.icall(mi.group(1), mi.group(2)); iscall = True
                 L = self.expr(lhs); Rr = self.expr(rhs)
+                if iscall:
+                    # a call whose result is a struct: remember the type, so that a callee outside the cut gets a declaration
+                    vt_ = self.vars.get(lhs.strip())
+                    mc_ = re.match(r'^([A-Za-z_]\w*) \(', Rr)
+                    if vt_ and mc_ and re.search(r'\b(struct|union)\b', vt_[1]) and '*' not in vt_[1] and '&' not in vt_[1]:
+                        self.R.struct_ret.setdefault(mc_.group(1), self.ctype(vt_[1]))
                 if rhs.startswith('&') and '@B' in Rr and Rr.endswith('@'):
                     # `_1 = &obj->D_uid` (address of a base sub-object): the type of _1 names the base
                     mb = re.search(r'@B(\d+)@$', Rr)
@@ -860,6 +902,9 @@ def method_render(self):
                 lines.append('  ' + self.expr(s) + propagate())
                 continue
             m = re.match(r'^(\S+) \((.*)\);$', s)
+            if m and m.group(1) in self.vars and re.match(r'^_\d+$', m.group(1)):
+                lines.append('  ' + self.expr(self.icall(m.group(1), m.group(2)) + ';') + propagate())
+                continue
             if m and m.group(1) in self.vars:
                 raise G2CError('indirect call %r in %s' % (s, f.pretty))
             raise G2CError('unknown statement form %r in %s' % (self.restore_strings(s), f.pretty))
@@ -961,6 +1006,9 @@ class Renderer:
     def __init__(self, unit, objfile, aliases=None, line_directives=True, transparent=(), enums=(), extra_structs=()):
         self.enums = list(enums)
         self.base_field_struct = {}   # uid of an anonymous (base-class) field -> uid of the struct it is
+        self.icalls = set()
+        self.struct_ret = {}          # callee name -> C type of its struct result (seen at a call site)
+        self.render_ns = []           # further namespaces whose functions are rendered (default: bloc::)
         self.extra_structs = list(extra_structs)
         self.unit = unit
         self.obj = objfile
@@ -968,8 +1016,10 @@ class Renderer:
         self.line_directives = line_directives
         self.struct_refs = set()
         self.scalar_refs = set()
+        self.arith_scalars = set()   # uids of typedef'd scalar types seen in `_Literal (T) <integer>`
         self.file_statics = set()
         self.scope_hints = {}
+        self.scalar_scope_hints = {}
         self.rendered = {}      # mangled -> (sig, body, FuncRenderer)
         self.external = set()   # callees not rendered
         self.transparent = list(transparent)
@@ -1014,7 +1064,7 @@ class Renderer:
         f = self.unit.by_mangled.get(mangled)
         if f is None or mangled in cut:
             return False
-        if f.pretty.startswith('bloc::') or f.pretty.startswith('bloc_') or STD_RENDER_OK.match(f.pretty):
+        if f.pretty.startswith('bloc::') or f.pretty.startswith('bloc_') or STD_RENDER_OK.match(f.pretty) or any(f.pretty.startswith(ns + '::') for ns in self.render_ns):
             return True
         return False
 
@@ -1066,7 +1116,7 @@ class Renderer:
                 mm = re.match(r'^(.*?)\s*((?:[A-Za-z_]' + IDCH + r'*?)?D_\d+)$', p.strip())
                 ps.append(base_tok(mm.group(1)) if mm else None)
             sigs.append({'mangled': f.mangled, 'dem': self.unit.dem.get(f.mangled, ''), 'ret': base_tok(f.rettype), 'params': ps})
-        req = {'structs': structs, 'scalars': [list(x) for x in sorted(self.scalar_refs)], 'transparent': self.transparent, 'sigs': sigs, 'enums': self.enums, 'extra_structs': self.extra_structs}
+        req = {'structs': structs, 'arith_scalars': sorted(self.arith_scalars), 'scalars': [list(x) + [sorted(self.scalar_scope_hints.get(x[0], []))] for x in sorted(self.scalar_refs)], 'transparent': self.transparent, 'sigs': sigs, 'enums': self.enums, 'extra_structs': self.extra_structs}
         json.dump(req, open(reqf, 'w'))
         env = dict(os.environ, G2C_REQ=reqf, G2C_OUT=outf)
         here = os.path.dirname(os.path.abspath(__file__))
@@ -1145,7 +1195,12 @@ class Renderer:
             protos.append(final(sig) + ';')
             bodies.append(body)
         types_h = '\n'.join(lines) + '\n'
-        fns_c = '\n'.join(protos) + '\n\n' + '\n\n'.join(bodies) + '\n'
+        ext_decl = []
+        for name in sorted(self.struct_ret):
+            if name in self.external or name.startswith('VCALL_') or name.startswith('ICALL_'):
+                # K&R-style declaration: compatible with the full definition a contract header may give before
+                ext_decl.append('%s %s();' % (final(self.struct_ret[name]), name))
+        fns_c = '\n'.join(ext_decl + protos) + '\n\n' + '\n\n'.join(bodies) + '\n'
         return types_h, fns_c
 
     def base_of(self, q, uid_hint, nextfield):
